@@ -29,7 +29,7 @@ def CLASSIFY(c, real, msg):
 
 def streams(ctx):
     n = 8 if ctx.thorough else 1
-    return [("tagged", "tagged", 600 * n), ("tagged-2hap", "tagged2", 300 * n), ("hap-named-input", "hapnames", 150 * n), ("untagged", "script", 150 * n)]
+    return [("tagged", "tagged", 600 * n), ("tagged-2hap", "tagged2", 300 * n), ("hap-named-input", "hapnames", 150 * n), ("hap-tags-other-case", "hapmix", 250 * n), ("untagged", "script", 150 * n)]
 
 
 def gen(ctx, kind):
